@@ -85,6 +85,19 @@ func (ctx *Context) FindRedirects() {
 
 				// Build a fully qualified name to the function.
 				name := fmt.Sprintf("%s.%s", pkgPath, decl.Name)
+				if decl.Recv != nil && len(decl.Recv.List) == 1 {
+					// A method's symbol is qualified by its
+					// receiver type: pkg.(*T).Name or pkg.T.Name.
+					switch recv := decl.Recv.List[0].Type.(type) {
+					case *ast.StarExpr:
+						if ident, ok := recv.X.(*ast.Ident); ok {
+							name = fmt.Sprintf("%s.(*%s).%s", pkgPath, ident, decl.Name)
+						}
+					case *ast.Ident:
+						name = fmt.Sprintf("%s.%s.%s", pkgPath, recv, decl.Name)
+					}
+				}
+
 				from := strings.TrimSpace(strings.TrimPrefix(comment.Text, redirectComment))
 
 				ctx.Redirects = append(ctx.Redirects, &SymbolRedirect{
